@@ -116,7 +116,7 @@ def listener_loop(e, me, pk):
 
 
 def stages(report, R, db, S, M, fi, is_stage, what):
-    me, pk = sy(fi.params[0]), sy(fi.params[1])
+    me, pk = sy(fi.all_params[0]), sy(fi.all_params[1])
     paths = S.run(fi)
     ignore = db.resolve_dotted(fi.module, ast.Name(id='IgnorePacket',
                                                    ctx=ast.Load()))
@@ -249,7 +249,7 @@ def dispatch_lists(report, db, S, M):
     b = stages(report, R3, db, S, M, wp, is_write, 'write')
     # the reaction is applied to the same packet, through the reactor in
     # force *now* (read from the connection at dispatch time)
-    me, pk = sy(react.params[0]), sy(react.params[1])
+    me, pk = sy(react.all_params[0]), sy(react.all_params[1])
     seen = False
     for p in S.run(react):
         for e in p.flat(('call',)):
@@ -293,7 +293,7 @@ def registration(report, db, cg, S, M, disp):
                     'appends; the four lists are created once')
     reg = M.conn_method('register_packet_listener')
     init = M.conn_method('__init__')
-    me = sy(reg.params[0])
+    me = sy(reg.all_params[0])
     want = {}
     if disp.get('incoming'):
         want[(True, False)], want[(False, False)] = disp['incoming']
@@ -375,7 +375,7 @@ def call_packet(report, db, S):
     init = db.own_method(ci, '__init__')
     if fi is None or init is None:
         raise AnalysisError('PacketListener.call_packet/__init__ vanished')
-    me, pk = sy(fi.params[0]), sy(fi.params[1])
+    me, pk = sy(fi.all_params[0]), sy(fi.all_params[1])
     cb = at(me, 'callback')
     paths = S.run(fi)
     prob = {}
@@ -455,7 +455,7 @@ def call_packet(report, db, S):
         return
     attr = sorted(list_attr)[0]
     # __init__ keeps the registered types it is given
-    ime = sy(init.params[0])
+    ime = sy(init.all_params[0])
     va = init.node.args.vararg
     if va is None:
         raise AnalysisError('PacketListener.__init__ takes no *types',
